@@ -294,10 +294,10 @@ func engineB(c *core.Ctx) error {
 					mu.Unlock()
 					return
 				}
-				// heap variant of the disjunction for every third corpus
+				liveDocs := docsOf(live)
 				var local []*caseT
 				for k := 0; k < nQ; k++ {
-					q := qs.GenQuery(r, qs.Facts{NIDs: nids}, depth)
+					q := qs.GenQuery(r, qs.Facts{NIDs: nids, Docs: liveDocs}, depth)
 					cs, err := ct.runCase(q)
 					if err != nil {
 						mu.Lock()
@@ -346,8 +346,9 @@ func heapRound(c *core.Ctx, nCorp, nQ, depth int) ([]*caseT, error) {
 		if err != nil {
 			return nil, err
 		}
+		liveDocs := docsOf(live)
 		for k := 0; k < nQ; k++ {
-			q := qs.GenQuery(r, qs.Facts{NIDs: nids}, depth)
+			q := qs.GenQuery(r, qs.Facts{NIDs: nids, Docs: liveDocs}, depth)
 			hasDisj := false
 			q.Walk(func(x *qs.Node) {
 				if x.Type == "disj" || x.Type == "boolean" || x.Type == "match" || x.Type == "prefix" || x.Type == "termrange" {
@@ -440,7 +441,7 @@ func judgeCases(c *core.Ctx, cases []*caseT, account bool) error {
 			defer wg.Done()
 			sem <- struct{}{}
 			defer func() { <-sem }()
-			bad, err := c.JudgeRecords("JudgeQuery", "JudgeQuery.cfg", toRecs(part), 8, core.Timeout(20*time.Minute))
+			bad, err := qs.Judge(c, "JudgeQuery", "JudgeQuery.cfg", qs.DummyQuery, toRecs(part), 8, core.Timeout(20*time.Minute))
 			mu.Lock()
 			defer mu.Unlock()
 			if err != nil && jerr == nil {
@@ -474,7 +475,7 @@ func judgeCases(c *core.Ctx, cases []*caseT, account bool) error {
 			sem <- struct{}{}
 			defer func() { <-sem }()
 			recs := toRecs(part)
-			bad, err := c.JudgeRecords("JudgeQuery", "JudgeQuery_tolerant.cfg", recs, 6, core.Timeout(20*time.Minute))
+			bad, err := qs.Judge(c, "JudgeQuery", "JudgeQuery_tolerant.cfg", qs.DummyQuery, recs, 6, core.Timeout(20*time.Minute))
 			mu.Lock()
 			if err != nil && jerr == nil {
 				jerr = err
@@ -487,7 +488,7 @@ func judgeCases(c *core.Ctx, cases []*caseT, account bool) error {
 				return
 			}
 			// ... and the first one that breaks the strict reading exhibits the finding
-			bad, err = c.JudgeRecords("JudgeQuery", "JudgeQuery.cfg", recs, 1, core.Timeout(20*time.Minute))
+			bad, err = qs.Judge(c, "JudgeQuery", "JudgeQuery.cfg", qs.DummyQuery, recs, 1, core.Timeout(20*time.Minute))
 			mu.Lock()
 			defer mu.Unlock()
 			if err != nil && jerr == nil {
@@ -601,7 +602,7 @@ func failingClass(c *core.Ctx, cs *caseT, runs []runRec) string {
 	for _, k := range keys {
 		recs = append(recs, cs.record(groups[k]))
 	}
-	bad, err := c.JudgeRecords("JudgeQuery", "JudgeQuery.cfg", recs, len(recs))
+	bad, err := qs.Judge(c, "JudgeQuery", "JudgeQuery.cfg", qs.DummyQuery, recs, len(recs))
 	if err != nil {
 		return "unclassified"
 	}
@@ -684,7 +685,7 @@ func shrink(c *core.Ctx, cs *caseT, runs []runRec) *qs.Node {
 		if len(recs) == 0 {
 			break
 		}
-		bad, err := c.JudgeRecords("JudgeQuery", "JudgeQuery.cfg", recs, 1)
+		bad, err := qs.Judge(c, "JudgeQuery", "JudgeQuery.cfg", qs.DummyQuery, recs, 1)
 		if err != nil || len(bad) == 0 {
 			break
 		}
@@ -696,6 +697,19 @@ func shrink(c *core.Ctx, cs *caseT, runs []runRec) *qs.Node {
 		return nil
 	}
 	return cur
+}
+
+func docsOf(live map[int]*qs.Doc) []*qs.Doc {
+	var ids []int
+	for id := range live {
+		ids = append(ids, id)
+	}
+	sort.Ints(ids)
+	var out []*qs.Doc
+	for _, id := range ids {
+		out = append(out, live[id])
+	}
+	return out
 }
 
 func liveOf(h qs.History) map[int]*qs.Doc {
